@@ -189,3 +189,11 @@ Proof.
   vm_compute. discriminate.
 Qed.
 Print Assumptions C12_history_refuted.
+
+(* dump side, nested class reached BY VALUE only (annotation `list` / `Any` / `Dict[str, Any]`): the class's own
+   dump-function generation performs the auto-tag step; outside region F22 the outcome is again effective's. *)
+Theorem C12_auto_tags_byvalue_partial :
+  forall e root own_, in_region_auto (root_config e root) own_ = false ->
+  impl_union_auto_byvalue (root_config e root) own_ = spec_union_auto (effective own_ root).
+Proof. exact auto_tags_byvalue_partial. Qed.
+Print Assumptions C12_auto_tags_byvalue_partial.
